@@ -111,6 +111,9 @@ func genScenario(prop string, rng *rand.Rand) *Scenario {
 		}
 		sc.Threads = append(sc.Threads, th)
 	}
+	if prop == "C10" && rng.Intn(2) == 0 {
+		sc.Threads = append(sc.Threads, Thread{Name: "P1", Ops: []Op{{Kind: "ps"}}})
+	}
 	for k := 0; k < closers; k++ {
 		th := Thread{Name: fmt.Sprintf("C%d", k+1)}
 		if (prop == "C06" || prop == "C05" || prop == "C11") && rng.Intn(4) == 0 {
